@@ -51,8 +51,8 @@ PROPS["C02"] = {
     "nontrivial_min_tokens": 30,
 }
 PROPS["C13"] = {
-    "level_text": "Theorems: untrained add/search is an error; for every probe count the IVF answer is the exact top-k, by true metric distance, of the live eligible vectors of the probed clusters; assignment is the first arg-min centroid by construction of the model. Full-probe = flat is decided per run by the history-based completeness oracle (spec_b) and bit-exact correspondence with k-means re-run inside the model.",
-    "level_note": "Trusted: as C02. 'full probe equals exact search' and rank-wise monotonicity in the probe count are checked on every sampled history by the extracted oracle, not yet closed as Coq theorems (partial).",
+    "level_text": "Theorems for every trained IVF state, query, k, threshold, id restriction and probe count: untrained add/search is an error; the answer is the exact top-k, by true metric distance, of the live eligible vectors of the probed clusters; with all clusters probed (or nprobes <= 0 / above nlist) it carries exactly the score sequence and length of exhaustive search over the same vectors; with more probes every rank is at least as good and the answer never shorter; Train establishes and Add/Remove/Flush keep the one-list-per-centroid invariant. Assignment to the first arg-min centroid is by construction of the model and compared structurally (dump) every run, together with k-means re-run inside the model.",
+    "level_note": "Trusted: as C02. The partial-probe clause is additionally decided per run by an oracle evaluated on the implementation's own centroids and lists (probe_specb), so that a wrong probe order yields a failing query, not only a divergence.",
     "correspondence": "ivf_index*.go + clustering.go ~ Model.VecIndex (KIVF) / Model.KMeans",
     "assumptions": ["equidistant centroids at the probe boundary make the probed set ambiguous (unstable sort): such cases are compared for soundness only"],
     "nontrivial_min_tokens": 30,
